@@ -185,7 +185,9 @@ def run(tier):
                 rec_unwrap(urec, enc, spec, ct)
                 pad = (-(2 + 1 + n + 2) % 16) + 1
                 akey = bytes(spec["key"])
-                for wrong in (0x0000, 0xFFFF, c16 ^ 0x0100):
+                # (also what OTHER CRC-16 conventions give for this payload: other presets, final XOR, swapped bytes)
+                others = {crc(p, s0) for s0 in (0x0000, 0x6363, 0x1D0F, 0xC6C6, 0x8408, 0x1021, 0xFFFE)} | {c16 ^ 0xFFFF, ((c16 & 255) << 8) | (c16 >> 8)}
+                for wrong in [0x0000, 0xFFFF, c16 ^ 0x0100] + sorted(others):
                     if wrong != c16:
                         rec_unwrap(urec, enc, spec, create_AES128(akey).encrypt(b"B" + bytes([n + 2]) + bytes(pad) + p + wrong.to_bytes(2, "big")))
         if need:
